@@ -4,6 +4,7 @@
 import GqlVerif.Driver.Decode
 import GqlVerif.Driver.Render
 import GqlVerif.Driver.ExtOps
+import GqlVerif.Driver.Messages
 open Lean Gql Gql.Driver
 
 structure DState where
@@ -36,6 +37,24 @@ def handle (st : DState) (j : Json) : D (DState × Json) := do
   | "ext" =>
     let r ← extOp st.schema j
     pure (st, Json.mkObj [("r", r)])
+  | "validate" =>
+    let d ← document (← field j "doc")
+    match visitDocument st.schema d with
+    | none => pure (st, Json.mkObj [("outcome", "panic")])
+    | some v =>
+      let tr := (v Stacks.empty).2
+      -- each rule alone
+      let single := RuleId.all.map fun r =>
+        (ruleName r, Json.arr ((sortStrings (((ruleOf r).runOn st.schema d tr).map (renderErr st.strings))).map Json.str).toArray)
+      -- merge rule / cycle rule diagnostics
+      let mst := (tr.foldl (overlappingFieldsCanBeMerged.step st.schema d) (overlappingFieldsCanBeMerged.init, [])).1
+      let cst := (tr.foldl (noFragmentsCycle.step st.schema d) (noFragmentsCycle.init, [])).1
+      -- the default plan through the shared context
+      let dflt := (runPlan st.schema d v RuleId.all Stacks.empty).map fun g =>
+        Json.arr ((sortStrings (g.map (renderErr st.strings))).map Json.str).toArray
+      pure (st, Json.mkObj [("outcome", "ok"), ("single", Json.mkObj single),
+        ("mergeStuck", mst.stuck), ("guardHit", mst.guardHit), ("cycleStuck", cst.stuck),
+        ("planGroups", Json.arr dflt.toArray)])
   | "svisit" =>
     match schemaVisit st.schema with
     | none => pure (st, Json.mkObj [("outcome", "panic")])
